@@ -306,14 +306,21 @@ func genParseText(r *rng, kind string, maxLen int) ([]byte, string) {
 	default:
 		// nesting
 		depth := r.rangeInt(10, maxLen/4)
-		open, cl := pick(r, [2]string{"(", ")"}, [2]string{"[", "]"}, [2]string{"-(", ")"}, [2]string{"{a:", "}"}, [2]string{"(x->", ")"}, [2]string{"if a then 1 else ", ""}, [2]string{"let x=1;", ""}, [2]string{"a+", ""}, [2]string{"!", ""}), ""
+		if r.chance(0.6) {
+			depth = r.rangeInt(10, 120)
+		}
+		open, cl := pick(r, [2]string{"(", ")"}, [2]string{"[", "]"}, [2]string{"-(", ")"}, [2]string{"{a:", "}"}, [2]string{"(x->", ")"}, [2]string{"x->", ""}, [2]string{"(x,y)->", ""},
+			[2]string{"if a then 1 else ", ""}, [2]string{"let x=1;", ""}, [2]string{"let x=a;", ""}, [2]string{"a+", ""}, [2]string{"!", ""}, [2]string{"f(", ")"}, [2]string{"a.m(", ")"},
+			[2]string{"try ", " catch 1"}, [2]string{"[1,", "]"}, [2]string{"a[", "]"}, [2]string{"func f(x) ", "; f(1)"}), ""
 		_ = cl
 		var b strings.Builder
 		for i := 0; i < depth && b.Len()+len(open[0])+len(open[1]) < maxLen-4; i++ {
 			b.WriteString(open[0])
 		}
 		n := strings.Count(b.String(), open[0])
-		b.WriteString("1")
+		// the innermost expression: a constant, an argument, a global constant, the nested
+		// parameter, an unknown name
+		b.WriteString(pick(r, "1", "1", "a", "b", "pi", "x", "zz", "a+x", "true"))
 		if r.chance(0.8) { // sometimes leave it unbalanced
 			for i := 0; i < n; i++ {
 				b.WriteString(open[1])
